@@ -132,6 +132,22 @@ def gen_case(rng):
         # rounding can only move a bound onto xopt, never across it
         sl[i] = min(sl[i], xopt[i])
         su[i] = max(su[i], xopt[i])
+    if n >= 2 and rng.random() < 0.08:
+        # exact ties in the ratio test: two or more coordinates with identical gradient, bound distances and (zero or scalar) curvature,
+        # so that several bounds are hit at exactly the same step length
+        H = np.zeros((n, n)) if rng.random() < 0.7 else np.eye(n) * float(H[0, 0] if H[0, 0] > 0 else 1.0)
+        hkind = 'tie'
+        k = int(rng.integers(2, n + 1))
+        idx = rng.permutation(n)[:k]
+        j0 = idx[0]
+        if g[j0] == 0.0:
+            g[j0] = -gscale
+        for j in idx[1:]:
+            g[j] = g[j0]
+            sl[j] = xopt[j] + (sl[j0] - xopt[j0]) if sl[j0] > -1e19 else -1e20
+            su[j] = xopt[j] + (su[j0] - xopt[j0]) if su[j0] < 1e19 else 1e20
+            if abs((su[j] - xopt[j]) - (su[j0] - xopt[j0])) > 0 or abs((sl[j] - xopt[j]) - (sl[j0] - xopt[j0])) > 0:
+                xopt[j] = xopt[j0]; sl[j] = sl[j0]; su[j] = su[j0]       # make the distances bit-identical
     return dict(xopt=xopt, g=g, H=H, sl=sl, su=su, delta=delta, hkind=hkind, gkind=gkind)
 
 
